@@ -52,6 +52,16 @@ def run(ctx):
             if fam == "PageHinkley" and i % 2 == 0:
                 items = [abs(x) + 0.5 for x in items]       # positive data: the relation must hold outright
             ts.append(P.two_runs(fam, strict, loose, items, rng.randrange(10 ** 6), "FirstDriftNotLater", extra={"par": par}))
+    # CUSUM with a known target: the sums accumulate during burn-in, so a shift that begins inside the burn-in window
+    # lets the loose threshold be crossed before the first admissible alarm while the strict one is crossed later
+    for i in range(6 if q else 40):
+        bi = rng.choice([10, 20, 30])
+        p = dict(target=0.0, sd_hat=1.0, burn_in=bi, delta=rng.choice([0.005, 0.05]), direction=rng.choice([None, "positive"]))
+        lo, hi = sorted(rng.sample([2.0, 4.0, 6.0, 10.0, 15.0], 2))
+        k = rng.randint(0, bi // 2)
+        items = [round(rng.gauss(0, 0.05), 3) for _ in range(k)] + [round(rng.uniform(0.3, 1.5) + rng.gauss(0, 0.05), 3) for _ in range(3 * bi)]
+        strict, loose = dict(p, threshold=hi), dict(p, threshold=lo)
+        ts.append(P.two_runs("CUSUM", strict, loose, items, rng.randrange(10 ** 6), "FirstDriftNotLater", extra={"par": "threshold"}))
     ctx.validate("Product", ts, "strict vs loose detection threshold, same history and seed schedule (12 families)",
                  replay=lambda i: {"mode": "detect", "fam": ts[i]["fam"], "pa": ts[i]["pa"], "pb": ts[i]["pb"], "items": ts[i]["items"], "seed": ts[i]["seed"]},
                  nontrivial=lambda t: any(e["b"]["state"] == "drift" for e in t["ev"]))
